@@ -212,8 +212,13 @@ var (
 func viol(c *vf.Ctx, key string, w any, format string, args ...any) {
 	vkMu.Lock()
 	vk[key]++
+	n := vk[key]
 	vkMu.Unlock()
-	c.Violation(key, w, format, args...)
+	// vf keeps at most 25 witnesses per run over all keys: pass on the first three per key so that
+	// every key gets its replay files; the full per-key counts go to the log and the evidence counters.
+	if n <= 3 {
+		c.Violation(key, w, format, args...)
+	}
 }
 
 func q(s string) string { return fmt.Sprintf("%q", s) }
